@@ -24,7 +24,11 @@ def main():
         c = P.classify(res, meta, os.path.basename(gen))
     except P.Undecided as e:
         print('UNDECIDED:', str(e)[:6000]); sys.exit(2)
+    known = json.load(open(os.path.join(P.VERIF, 'known_findings.json')))['findings']
+    kn = {f"{e['obligation']}@{e['unit']}" for e in known}
     for k, ds in c['failed'].items():
+        if k in kn or k.startswith('__canary__'):
+            continue
         print('FAILED', k)
         for d in ds:
             print('   ', (d.get('rendered') or d['message'])[:1500].replace('\n', '\n    '))
